@@ -29,7 +29,7 @@ def gen_crash(rng, tier):
     out = []
     for i in range(n):
         case = progs.gen_case(rng, n_dests=1, fault=0.0, registry_rate=0.3, p_fault_ser=0.0, p_typed=0.2, depth=4,
-                              p_handoff=0.05)
+                              p_handoff=0.05, p_reserved=0.25)
         case["registry"] = [r for r in case["registry"] if r[1][0] == "fields"]
         nmsg_guess = 2 * sum(1 for _ in json.dumps(case["prog"]).split('"act"')) + 2
         at = rng.randrange(0, max(2, 2 * nmsg_guess))
@@ -207,6 +207,10 @@ def gen_kill(rng, tier):
                               p_handoff=0.0, p_raise=0.1)
         case["registry"] = []
         case["delay_ms"] = rng.choice([1, 3, 10, 30, 60, 120])
+        case["textfile"] = i % 2 == 1
+        if case["textfile"]:
+            # text that is not ASCII: Latin-1 range, BMP and astral characters, control characters
+            case["prog"].insert(0, ["msg", 12, [[33, {"a": 22}], [34, {"a": 23}], [35, {"a": 40}]], None, "log_message"])
         case["tag"] = "%08x" % rng.randrange(1 << 32)
         out.append(case)
     return out
